@@ -1,5 +1,90 @@
-/- Line-protocol driver for the C19 model (stub until the model exists). -/
-import ForML.Model.Sexp
-open ForML
+/- Line-protocol driver for the C19 model (ForML.Model.Codec + the generated ENCODERS/DECODERS tables).
 
-def main : IO Unit := driverLoop (fun _ => .atom "no-model")
+  (parse <header>)                 -> (ok (<enc> ...)) | (error badQ)
+  (ranges <header>)                -> (ok ((<kind> <q/1000>) ...)) | (error badQ)     [header order]
+  (glob <pattern> <name>)          -> true | false
+  (match <enc> <enc>)              -> true | false          pattern first
+  (encoder (<enc> ...))            -> (some <index into ENCODERS>) | none
+  (decoder <enc>)                  -> (some <index into DECODERS>) | none
+  (accept <header>)                -> (error badQ) | (some i) | none      parse, then encoder
+  (content <header>)               -> (error badQ) | (some i) | none      parse, [0], then decoder
+  (csv ((<cell> ...) ...))         -> (<text> (<row> ...))  csvDumps and csvLoads of it
+  <enc> ::= (<kind> ((<key> <value>) ...))
+-/
+import ForML.Model.Sexp
+import ForML.Model.Codec
+import ForML.Generated.C19Tables
+open ForML ForML.Codec
+
+def str? (x : Sexp) : Option Str := x.str?.map String.toList
+
+def ofStr (s : Str) : Sexp := .atom (String.ofList s)
+
+def kv? : Sexp → Option (Str × Str)
+  | .list [k, v] => do pure (← str? k, ← str? v)
+  | _ => none
+
+def enc? : Sexp → Option Encoding
+  | .list [k, .list opts] => do pure ⟨← str? k, ← opts.mapM kv?⟩
+  | _ => none
+
+def ofEnc (e : Encoding) : Sexp :=
+  .list [ofStr e.kind, .list (e.options.map fun (k, v) => .list [ofStr k, ofStr v])]
+
+def ofIdx : Option Nat → Sexp
+  | none => .atom "none"
+  | some i => .list [.atom "some", Sexp.ofNat i]
+
+def badQ : Sexp := .list [.atom "error", .atom "badQ"]
+
+def stepC19 : Sexp → Sexp
+  | .list [.atom "parse", h] =>
+    match str? h with
+    | some h => match parse h with
+      | .ok es => .list [.atom "ok", .list (es.map ofEnc)]
+      | .error .badQ => badQ
+    | none => .atom "bad-op"
+  | .list [.atom "ranges", h] =>
+    match str? h with
+    | some h => match ranges h with
+      | .ok rs => .list [.atom "ok", .list (rs.map fun r => .list [ofStr r.kind, Sexp.ofNat r.q])]
+      | .error .badQ => badQ
+    | none => .atom "bad-op"
+  | .list [.atom "glob", p, n] =>
+    match str? p, str? n with
+    | some p, some n => Sexp.ofBool (glob p n)
+    | _, _ => .atom "bad-op"
+  | .list [.atom "match", p, c] =>
+    match enc? p, enc? c with
+    | some p, some c => Sexp.ofBool (p.matches c)
+    | _, _ => .atom "bad-op"
+  | .list [.atom "encoder", .list ts] =>
+    match ts.mapM enc? with
+    | some ts => ofIdx (getEncoder Tables.encoders ts)
+    | none => .atom "bad-op"
+  | .list [.atom "decoder", s] =>
+    match enc? s with
+    | some s => ofIdx (getDecoder Tables.decoders s)
+    | none => .atom "bad-op"
+  | .list [.atom "accept", h] =>
+    match str? h with
+    | some h => match parse h with
+      | .ok es => ofIdx (getEncoder Tables.encoders es)
+      | .error .badQ => badQ
+    | none => .atom "bad-op"
+  | .list [.atom "content", h] =>
+    match str? h with
+    | some h => match parse h with
+      | .ok (e :: _) => ofIdx (getDecoder Tables.decoders e)
+      | .ok [] => .atom "empty"   -- unreachable: a header always has at least one item
+      | .error .badQ => badQ
+    | none => .atom "bad-op"
+  | .list [.atom "csv", .list rows] =>
+    match rows.mapM (fun r => match r with | .list cs => cs.mapM str? | _ => none) with
+    | some rows =>
+      let text := csvDumps rows
+      .list [ofStr text, .list ((csvLoads text).map fun r => .list (r.map ofStr))]
+    | none => .atom "bad-op"
+  | _ => .atom "bad-op"
+
+def main : IO Unit := driverLoop stepC19
